@@ -733,6 +733,27 @@ func cpFaults() []*cpFault {
 			},
 		},
 		{
+			// a server without implicit replace for next-hops: an ADD of a next-hop that is
+			// installed is answered FAILED and not applied
+			name:    "fails-repeated-add-of-a-next-hop",
+			targets: []string{"Implicit replace NH entry - RIB ACK", "Implicit replace NH entry - FIB ACK"},
+			interceptReq: func(st *cpModStream, m *spb.ModifyRequest) bool {
+				ops := m.GetOperation()
+				if len(ops) == 0 {
+					return false
+				}
+				for _, op := range ops {
+					if op.GetOp() != spb.AFTOperation_ADD || op.GetNextHop() == nil || !cpInstalled(st.inner, op) {
+						return false
+					}
+				}
+				for _, op := range ops {
+					st.GRIBI_ModifyServer.Send(&spb.ModifyResponse{Result: []*spb.AFTResult{{Id: op.GetId(), Status: spb.AFTResult_FAILED}}})
+				}
+				return true
+			},
+		},
+		{
 			name: "programs-non-primary-operations",
 			targets: []string{"Election - Unannounced master operations are rejected",
 				"Election - Incrementing election ID is honoured, and older IDs are rejected"},
